@@ -229,6 +229,7 @@ class FsSeam:
         self.uninstalled = False
         self.natural_order = False
         self.on_listdir = None  # hook(rel, names) -> None ; used by "vanish" admin
+        self.forced_order = {}  # rel -> explicit enumeration order (exhaustive permutations)
         self.watch_open = None  # suffix of paths whose size at open is recorded
         self.open_sizes = []
 
@@ -349,6 +350,12 @@ class FsSeam:
         names = sorted(names)
         if self.natural_order:
             return names
+        fo = self.forced_order.get(rel)
+        if fo:
+            isb = bool(names) and isinstance(names[0], bytes)
+            want = [(os.fsencode(x) if isb else os.fsdecode(x)) for x in fo]
+            head = [x for x in want if x in names]
+            return head + [x for x in names if x not in head]
         key = stable_hash(self.run_seed, self.epoch, rel,
                           tuple(os.fsdecode(n) if isinstance(n, bytes) else n for n in names))
         random.Random(key).shuffle(names)
